@@ -37,61 +37,77 @@ def search(ck, tier, seed):
             if t[0] != "ok":
                 continue
             t = t[1]
-            x, ctx = catalogue.sample_inputs(e, 3, seed + 31)
-            g = tgen(seed, "c16", e["name"])
-            ck.case(("c16", e["name"], mode), nontrivial=True)
-            ck.count(mode)
-            case = {"search": "gradients", "entry": e["name"], "mode": mode, "seed": seed}
-            x = x.clone().requires_grad_(True)
-            if ctx is not None:
-                ctx = ctx.clone().requires_grad_(True)
-            r = attempt(t, x, ctx)
-            if r[0] != "ok":
-                continue
-            y, lad = r[1]
-            w1 = torch.randn(y.shape, generator=g, dtype=torch.float64)
-            w2 = torch.randn(lad.shape, generator=g, dtype=torch.float64)
-            params = [p for p in t.parameters() if p.requires_grad]
-            obj = (y * w1).sum() + (lad * w2).sum()
-            gr = attempt(torch.autograd.grad, obj, [x] + ([ctx] if ctx is not None else []) + params, allow_unused=True)
-            if gr[0] != "ok":
-                ck.finding("gradient:backward-fails:%s" % e["name"], "%s (%s): %s %s" % (e["name"], mode, gr[1], gr[2]), case)
-                continue
-            grads = gr[1]
-            names = ["input"] + (["context"] if ctx is not None else []) + ["param%d" % i for i in range(len(params))]
-            tensors = [x] + ([ctx] if ctx is not None else []) + params
-            for nm, tn, gv in zip(names, tensors, grads):
-                if gv is not None and not bool(torch.isfinite(gv).all()):
-                    ck.finding("gradient:non-finite:%s" % e["name"], "%s (%s): gradient w.r.t. %s is not finite" % (e["name"], mode, nm), case)
-            if mode == "train":
-                continue   # finite differences only in evaluation mode (no batch-statistics side effects)
-            for mod in t.modules():
-                if hasattr(mod, "use_cache"):
-                    mod.use_cache(False)     # finite differences perturb parameters in evaluation mode (outside C10's alphabet)
-            with torch.no_grad():
-                def f():
-                    yy, ll = t(x.detach(), None if ctx is None else ctx.detach())
-                    return (yy * w1).sum() + (ll * w2).sum()
-                for nm, tn, gv in zip(names, tensors, grads):
-                    n = tn.numel()
-                    if n == 0:
+            x0, ctx0 = catalogue.sample_inputs(e, 3, seed + 31)
+            for direction in ("forward", "inverse"):
+                g = tgen(seed, "c16", e["name"])
+                ck.case(("c16", e["name"], mode, direction), nontrivial=True)
+                ck.count(mode + "/" + direction)
+                case = {"search": "gradients", "entry": e["name"], "mode": mode, "direction": direction, "seed": seed}
+                fn = t if direction == "forward" else t.inverse
+                x = x0
+                if direction == "inverse":
+                    if mode == "train":
                         continue
-                    idxs = sorted({0, n // 2, n - 1})
-                    fd = fd_check(f, tn, idxs)
-                    gflat = None if gv is None else gv.reshape(-1)
-                    for i, d in zip(idxs, fd):
-                        a = 0.0 if gflat is None else float(gflat[i])
-                        tol = (5e-2 if e["umnn"] else 2e-5) * (1 + abs(a) + abs(d))
-                        if e["kinks"] and abs(a - d) > tol:
-                            # re-test with a smaller step: a kink inside the stencil gives an FD artefact
-                            d2 = fd_check(f, tn, [i], h=1e-8)[0]
-                            if abs(a - d2) <= 1e-3 * (1 + abs(a) + abs(d2)):
-                                continue
-                        if abs(a - d) > tol:
-                            what = "missing" if gflat is None else "wrong"
-                            ck.finding("gradient:%s:%s:%s" % (what, e["name"], "input" if nm in ("input", "context") else "parameter"),
-                                       "%s: d/d%s[%d]: autograd %r, finite difference %r" % (e["name"], nm, i, a, d), case)
-                            break
+                    with torch.no_grad():
+                        r0 = attempt(t, x0, ctx0)
+                    if r0[0] != "ok":
+                        continue
+                    x = r0[1][0].detach().contiguous()
+                x = x.contiguous().clone().requires_grad_(True)
+                ctx = None if ctx0 is None else ctx0.clone().requires_grad_(True)
+                r = attempt(fn, x, ctx)
+                if r[0] != "ok":
+                    continue
+                y, lad = r[1]
+                w1 = torch.randn(y.shape, generator=g, dtype=torch.float64)
+                w2 = torch.randn(lad.shape, generator=g, dtype=torch.float64)
+                params = [p for p in t.parameters() if p.requires_grad]
+                obj = (y * w1).sum() + (lad * w2).sum()
+                gr = attempt(torch.autograd.grad, obj, [x] + ([ctx] if ctx is not None else []) + params, allow_unused=True)
+                if gr[0] != "ok":
+                    ck.finding("gradient:backward-fails:%s:%s" % (e["name"], direction), "%s (%s): %s %s" % (e["name"], mode, gr[1], gr[2]), case)
+                    continue
+                grads = gr[1]
+                names = ["input"] + (["context"] if ctx is not None else []) + ["param%d" % i for i in range(len(params))]
+                tensors = [x] + ([ctx] if ctx is not None else []) + params
+                for nm, tn, gv in zip(names, tensors, grads):
+                    if gv is not None and not bool(torch.isfinite(gv).all()):
+                        ck.finding("gradient:non-finite:%s:%s" % (e["name"], direction), "%s (%s): gradient w.r.t. %s is not finite" % (e["name"], mode, nm), case)
+                if mode == "train":
+                    continue   # finite differences only in evaluation mode (no batch-statistics side effects)
+                for mod in t.modules():
+                    if hasattr(mod, "use_cache"):
+                        mod.use_cache(False)     # finite differences perturb parameters in evaluation mode (outside C10's alphabet)
+                with torch.no_grad():
+                    def f():
+                        yy, ll = fn(x.detach(), None if ctx is None else ctx.detach())
+                        return (yy * w1).sum() + (ll * w2).sum()
+                    for nm, tn, gv in zip(names, tensors, grads):
+                        n = tn.numel()
+                        if n == 0:
+                            continue
+                        idxs = sorted({0, n // 2, n - 1})
+                        fd = fd_check(f, tn, idxs)
+                        gflat = None if gv is None else gv.reshape(-1)
+                        for i, d in zip(idxs, fd):
+                            a = 0.0 if gflat is None else float(gflat[i])
+                            tol = (5e-2 if e["umnn"] else 2e-5) * (1 + abs(a) + abs(d))
+                            if e["kinks"] and abs(a - d) > tol:
+                                # re-test with a smaller step: a kink inside the stencil gives an FD artefact
+                                d2 = fd_check(f, tn, [i], h=1e-8)[0]
+                                if abs(a - d2) <= 1e-3 * (1 + abs(a) + abs(d2)):
+                                    continue
+                            if abs(a - d) > tol:
+                                what = "missing" if gflat is None else "wrong"
+                                if e["umnn"] and direction == "inverse":
+                                    # UMNN inverts by 25 bisection steps built from comparisons: no derivative flows through it
+                                    ck.finding("gradient:umnn-inverse-by-bisection:%s" % e["name"],
+                                               "%s inverse: d/d%s[%d]: autograd %r, finite difference %r" % (e["name"], nm, i, a, d), case)
+                                    break
+                                ck.finding("gradient:%s:%s:%s%s" % (what, e["name"], "input" if nm in ("input", "context") else "parameter",
+                                                                         "" if direction == "forward" else ":inverse"),
+                                           "%s (%s): d/d%s[%d]: autograd %r, finite difference %r" % (e["name"], direction, nm, i, a, d), case)
+                                break
     # flows: log_prob gradients w.r.t. parameters, inputs and context
     from nflows.flows.base import Flow
     from nflows.distributions import normal
